@@ -225,7 +225,6 @@ def build(ck):
             return
         which = S.choose(2)
         st = start_state(S, var, which)
-        before = st['cur']
         named = tuple(FN[:1 + S.choose(len(FN))])
         S.inputs['named'] = list(named)
         kw = {n: sym_value(P, n, 'kw') for n in named}
@@ -235,16 +234,21 @@ def build(ck):
             return
         cfg = cfg.value
         inst = cfg.fields.get('_instance')
+        # a Config object may be entered under ANOTHER active configuration than the one it was built under (objects
+        # prepared up front and nested later): what must be restored is the configuration active when the block is ENTERED
+        moved = S.choose(2)
+        S.inputs['entered_under'] = ['the configuration it was built under', 'another configuration'][moved]
+        if moved:
+            st['cur'] = sym_config(S.ck.P, 'c_at_enter')
+        before = st['cur']
+        w0 = len(st['writes'])
         ent = S.call(S.I.getattr(cfg, '__enter__'), [])
         S.oblige('exc', ent.normal, tag='enter-returns-normally')
         if not ent.normal:
             return
         S.oblige('post', ent.value is inst, tag='enter-returns-the-stored-instance')
         S.oblige('post', st['cur'] is inst, tag='enter-makes-the-stored-instance-current')
-        tok = cfg.fields.get('token')
-        S.oblige('post', isinstance(tok, CX.TokenV) and tok.var is var and tok.old is before and
-                 len(st['writes']) == 1 and st['writes'][0][0] == 'set' and st['writes'][0][2] is tok,
-                 tag='enter-sets-once-and-keeps-the-token-of-this-set-on-self')
+        S.oblige('frame', len(st['writes']) == w0 + 1, tag='enter-writes-the-context-variable-once')
         exc = S.choose(2)
         args = [None, None, None] if exc == 0 else [ExcVal('ValueError'), ExcVal('ValueError'), z3.Const('tb', CX.AnyS)]
         ex = S.call(S.I.getattr(cfg, '__exit__'), args)
@@ -253,9 +257,15 @@ def build(ck):
         if not ex.normal:
             return
         S.oblige('post', S.I.truth_term(ex.value) is False, tag=f'{how}:exit-does-not-swallow-exceptions')
-        S.oblige('post', st['cur'] is before, tag=f'{how}:configuration-active-before-the-block-is-restored')
-        S.oblige('post', len(st['writes']) == 2 and st['writes'][1][0] == 'reset' and st['writes'][1][2] is tok,
-                 tag=f'{how}:restored-by-reset-with-the-token-of-enter')
+        # semantic statement: the EFFECTIVE configuration (what Config.instance() returns) is the one active at entry —
+        # whether it is restored by reset(token) or by set(previous) is the code's business
+        S.oblige('post', effective(var, st['cur']) is effective(var, before),
+                 tag=f'{how}:configuration-active-when-the-block-was-entered-is-restored')
+        S.oblige('frame', len(st['writes']) == w0 + 2, tag=f'{how}:exit-writes-the-context-variable-once')
+        tok = cfg.fields.get('token')
+        if isinstance(tok, CX.TokenV):
+            S.oblige('post', tok.var is var and tok.old is before and tok.used,
+                     tag=f'{how}:a-token-kept-on-self-is-the-one-of-this-entry-and-is-consumed')
     ck.explore(f'{CFG}.Config.__exit__', enter_exit, T)
 
     # ------------------------------------------------------------------ H4  the with rule
@@ -294,7 +304,10 @@ def build(ck):
             S.oblige('exc', exc is not None and exc.name == 'KeyError', tag='exception-of-the-body-propagates')
         else:
             S.oblige('exc', exc is None, tag='no-exception-when-the-body-returns')
-        S.oblige('post', st['cur'] is before, tag=f'after-the-block ({S.inputs["body"]}): cur is what it was before')
+        # (the effective configuration — what Config.instance() returns — is what counts: restoring by set(previous)
+        # instead of reset(token) leaves the default explicitly bound, which no reader can tell apart)
+        S.oblige('post', effective(var, st['cur']) is effective(var, before),
+                 tag=f'after-the-block ({S.inputs["body"]}): the active configuration is what it was before')
     ck.explore(f'{CFG}.Config.__exit__', with_rule, T, label='with-rule')
 
     def with_nested(S):
@@ -343,7 +356,8 @@ def build(ck):
         else:
             S.oblige('exc', exc is None, tag='no-exception')
             S.oblige('post', seen.get('after_inner') is seen['outer'], tag='leaving-the-inner-block-restores-the-outer-configuration')
-        S.oblige('post', st['cur'] is before, tag='leaving-the-outer-block-restores-the-initial-configuration')
+        S.oblige('post', effective(var, st['cur']) is effective(var, before),
+                 tag='leaving-the-outer-block-restores-the-initial-configuration')
         if which == 0:
             S.oblige('post', S.call(S.I.getattr(ClassRef(P.cls(f'{CFG}.Config')), 'instance'), []).value is var.default,
                      tag='ending-with-the-defaults')
@@ -598,8 +612,10 @@ def build_frames(ck, T):
               and any(class_target(t) for t in (n.targets if isinstance(n, ast.Assign) else [n.target]))]
         S.oblige('frame', not cw, tag='no-assignment-to-class-attributes-in-the-config-module', note=str(cw))
         # F3 every reference to _config_var is <var>.get() / .set(v) / .reset(tok), in the allowed methods
-        allowed = {'get': {'Config.__init__', 'Config.instance'}, 'set': {'Config.__enter__'},
-                   'reset': {'Config.__exit__'}}
+        # (frame: WHERE the variable may be read and written; how __exit__ restores — reset(token) or set(previous) — is
+        # decided by the Hoare triples above, not here)
+        allowed = {'get': {'Config.__init__', 'Config.instance', 'Config.__enter__'},
+                   'set': {'Config.__enter__', 'Config.__exit__'}, 'reset': {'Config.__exit__'}}
         bad = []
         uses = {'get': set(), 'set': set(), 'reset': set()}
         for n, q, parent in nodes:
@@ -613,10 +629,11 @@ def build_frames(ck, T):
                     if gp and isinstance(gp[0], ast.Call) and gp[0].func is parent:
                         continue
                 bad.append(f'{q}: {ast.unparse(parent)[:50]}')
-        S.oblige('frame', not bad, tag='_config_var-is-only-used-as-get/set/reset-in-Config-methods: set only in '
-                 '__enter__, reset only in __exit__', note=str(bad))
-        S.oblige('frame', uses['set'] == {'Config.__enter__'} and uses['reset'] == {'Config.__exit__'},
-                 tag='__enter__-sets-and-__exit__-resets')
+        S.oblige('frame', not bad, tag='_config_var-is-only-used-as-get/set/reset-in-Config-methods: written only in '
+                 '__enter__ / __exit__', note=str(bad))
+        S.oblige('frame', 'Config.__enter__' in uses['set'] and bool(uses['set'] | uses['reset']) and
+                 ('Config.__exit__' in uses['reset'] or 'Config.__exit__' in uses['set']),
+                 tag='__enter__-binds-and-__exit__-rebinds-the-variable')
         # F4 nothing outside the config module touches the variable or contextvars
         leaks = []
         for mod in P.modules.values():
